@@ -7,6 +7,7 @@ import AfkakProofs.Client.A_Recover
 import AfkakProofs.Client.A_Kept
 import AfkakProofs.Client.A_Wf
 import AfkakProofs.Client.A_Rk
+import AfkakProofs.Client.A5_Query
 import AfkakProps.Open.C08
 /-!
 # C08 — cached cluster metadata mirrors the broker's answer and self-heals when stale
@@ -275,6 +276,84 @@ theorem C08_recovers_within_retry_budget_counterexample : ¬ Open.C08_recovers_w
     (mkAgrees_of_all (by decide +kernel)) (by decide +kernel) (by decide +kernel)
   exact no_responses_of_all (o := 3) (tr := traceOf cfg st0 evs) (by decide +kernel) ⟨tags, hmem⟩
 
+/-- **The cache queries answer exactly what the last metadata response said** (session 5; `has_metadata_for_topic`,
+    `metadata_error_for_topic`, `consumer_group_to_brokers` of afkak/client.py, modelled in Afkak/ClientQuery.lean and
+    compared with the real methods after every operation of every generated history): after a metadata response is
+    merged into a well-formed cache (every reachable state has one: `C08_reachable_cache_wf`), for every topic the
+    response covers `metadata_error_for_topic` answers the response's error code and `has_metadata_for_topic` answers
+    whether the response listed at least one partition; for every topic it does not cover both answer what they
+    answered before; and the coordinators are untouched. -/
+theorem C08_query_mirrors_response (c : Cache) (hw : CWf c) (hk : BrokersKeyed c) (bs : List Broker) (ts : List TopicMeta)
+    (fetchedAll : Bool) :
+    let c' := (mergeTopicMetadata c bs ts fetchedAll).1
+    (∀ e ∈ respTopics ts, Afkak.ClientQuery.metadataErrorForTopic c' e.2.name = e.2.err ∧
+        Afkak.ClientQuery.hasMetadataForTopic c' e.2.name = !(respParts e.2).isEmpty) ∧
+    (∀ t, hasKey t (respTopics ts) = false →
+        Afkak.ClientQuery.metadataErrorForTopic c' t = Afkak.ClientQuery.metadataErrorForTopic c t ∧
+        Afkak.ClientQuery.hasMetadataForTopic c' t = Afkak.ClientQuery.hasMetadataForTopic c t) ∧
+    Afkak.ClientQuery.consumerGroupToBrokers c' = Afkak.ClientQuery.consumerGroupToBrokers c := by
+  intro c'
+  have h := (mergeTopicMetadata_mirror hw hk bs ts fetchedAll).1
+  simp only [mirrorOk, Bool.and_eq_true] at h
+  obtain ⟨⟨⟨_, htm⟩, hothers⟩, _⟩ := h
+  refine ⟨fun e he => Afkak.ClientQuery.query_of_topicMirror (List.all_eq_true.mp htm e he), fun t ht => ?_, ?_⟩
+  · have := Afkak.ClientQuery.query_of_untouched hothers t ht
+    exact ⟨this.1, this.2.1⟩
+  · simp only [othersUntouched, Bool.and_eq_true, beq_iff_eq] at hothers
+    exact hothers.2
+
+/-- **The query monitor holds of the model**: `Afkak.ClientQuery.queryMirror` - evaluated on the answers the REAL
+    `has_metadata_for_topic` / `metadata_error_for_topic` give for the covered topics right after every metadata
+    response of every generated history - holds of the answers the model's queries give on the merged cache, from
+    every well-formed cache (every reachable state: `C08_reachable_cache_wf`). -/
+theorem C08_query_monitor_holds (c : Cache) (hw : CWf c) (hk : BrokersKeyed c) (bs : List Broker) (ts : List TopicMeta)
+    (fetchedAll : Bool) :
+    Afkak.ClientQuery.queryMirror ts
+      (Afkak.ClientQuery.answers (mergeTopicMetadata c bs ts fetchedAll).1 ((respTopics ts).map (·.1))) = true := by
+  have h := (mergeTopicMetadata_mirror hw hk bs ts fetchedAll).1
+  simp only [mirrorOk, Bool.and_eq_true] at h
+  exact Afkak.ClientQuery.queryMirror_of_topicMirror h.1.1.2
+
+/-- **After an invalidation the queries say "unknown"**: a topic whose routing is invalid has no metadata
+    (`has_metadata_for_topic` is False) and the error code of an unknown topic (`UnknownTopicOrPartitionError.errno`,
+    read from the source); that is the case for the topic of `reset_topic_metadata`, for every topic after
+    `reset_all_metadata` (a failed send, `close()`), and for the topic of EVERY not-leader / unknown-partition answer
+    handed to `_handle_responses` - whatever `fail_on_error` is and also behind the first error raised. -/
+theorem C08_query_after_invalidation (c : Cache) (hw : CWf c) :
+    (∀ t, topicInvalid c t = true →
+        Afkak.ClientQuery.hasMetadataForTopic c t = false ∧ Afkak.ClientQuery.metadataErrorForTopic c t = clientMetadataErrorDefault) ∧
+    (∀ t, Afkak.ClientQuery.hasMetadataForTopic (resetTopic c t) t = false ∧
+        Afkak.ClientQuery.metadataErrorForTopic (resetTopic c t) t = clientMetadataErrorDefault) ∧
+    (∀ t, Afkak.ClientQuery.hasMetadataForTopic (resetAll c) t = false ∧
+        Afkak.ClientQuery.metadataErrorForTopic (resetAll c) t = clientMetadataErrorDefault) ∧
+    (∀ foe g rs, ∀ r ∈ rs, clientTopicResetErrnos.contains r.2 = true →
+        Afkak.ClientQuery.hasMetadataForTopic (handleResponses c foe (some g) rs).1 r.1 = false ∧
+        Afkak.ClientQuery.metadataErrorForTopic (handleResponses c foe (some g) rs).1 r.1 = clientMetadataErrorDefault) := by
+  refine ⟨fun t h => Afkak.ClientQuery.query_of_invalid h,
+    fun t => Afkak.ClientQuery.query_of_invalid (resetTopic_invalid hw t),
+    fun t => Afkak.ClientQuery.query_of_invalid (by simp [topicInvalid, resetAll, t2bOf, hasKey]), ?_⟩
+  intro foe g rs r hr herr
+  have h4 := (handleResponses_spec foe g rs c hw).2.2.2
+  simp only [invalidateOk, List.all_eq_true, Bool.and_eq_true, Bool.or_eq_true, Bool.not_eq_eq_eq_not, Bool.not_true] at h4
+  have := (h4 r hr).1
+  rcases this with h | h
+  · rw [herr] at h; cases h
+  · exact Afkak.ClientQuery.query_of_invalid h
+
+/-! Non-vacuity of the query theorems: the response of the example below (topic t with partitions, topic v erroring
+    without partitions, topic u not covered), then a NotLeader answer for t. -/
+example :
+    let c : Cache := { brokers := [(1, ⟨1, "h1", 9092⟩)], t2b := [(("u", 0), some ⟨1, "h1", 9092⟩)],
+                       topicParts := [("u", [0])], topicErrs := [("u", 0)] }
+    let c' := (mergeTopicMetadata c [⟨1, "h1", 9092⟩] [⟨"t", 0, [⟨0, 0, 1⟩]⟩, ⟨"v", 3, []⟩] false).1
+    let c'' := (handleResponses c' true (some "g") [("t", 6)]).1
+    Afkak.ClientQuery.hasMetadataForTopic c' "t" = true ∧ Afkak.ClientQuery.metadataErrorForTopic c' "t" = 0 ∧
+    Afkak.ClientQuery.hasMetadataForTopic c' "v" = false ∧ Afkak.ClientQuery.metadataErrorForTopic c' "v" = 3 ∧
+    Afkak.ClientQuery.hasMetadataForTopic c' "u" = true ∧ Afkak.ClientQuery.hasMetadataForTopic c' "w" = false ∧
+    Afkak.ClientQuery.metadataErrorForTopic c' "w" = 3 ∧
+    Afkak.ClientQuery.hasMetadataForTopic c'' "t" = false ∧ Afkak.ClientQuery.metadataErrorForTopic c'' "t" = 3 ∧
+    Afkak.ClientQuery.hasMetadataForTopic c'' "u" = true := by decide
+
 /-! Non-vacuity: a response that re-addresses a broker, drops another from a full refresh (its client is
     closed), re-leaders a partition, names a leaderless and an unknown-leader partition, and carries an
     erroring topic — on a cache that has a second topic, a client per broker and a coordinator. -/
@@ -314,6 +393,9 @@ C08_recovers_within_retry_budget_counterexample
 C08_brokers_never_forgotten
 C08_reachable_cache_wf
 C08_reachable_monitor_wf
+C08_query_mirrors_response
+C08_query_after_invalidation
+C08_query_monitor_holds
 -/
 /- OPEN_STATEMENTS
 C08_recovers_within_retry_budget
